@@ -671,6 +671,8 @@ class FakeSocketNet(object):
         self.sched = sched
         self.script = script
         self.calls = 0
+        self.directed = False
+        self.iolog = []      # one record per completed recv/send: dict(s, op, asked, kind, k)
         self.a = FakeSocket(self, "A", 2001)
         self.b = FakeSocket(self, "B", 2002)
         self.a.peer, self.b.peer = self.b, self.a
@@ -692,6 +694,7 @@ class FakeSocket(object):
         self.pump = None
         self.in_pump = False
         self.sent = bytearray()
+        self.decision = None
 
     def _action(self, op, arg):
         net = self.net
@@ -711,12 +714,44 @@ class FakeSocket(object):
     def _readable(self):
         return bool(self.buf) or self._eof() or self.closed
 
+    def _directed(self, op, arg):
+        """directed mode: the driver supplies the outcome of every call (self.decision) before stepping the thread"""
+        s = self.net.sched
+        s.yield_op(op, self, enabled=lambda: self.decision is not None, info=arg)
+        act, self.decision = self.decision, None
+        self.net.calls += 1
+        self.net.log.append((self.name, op, self.net.calls, arg, act))
+        return act
+
     def recv(self, n):
         if self.closed:
             raise socket.error(errno.EBADF, "Bad file descriptor")
+        if self.net.directed:
+            act = self._directed("recv", n)
+            k = act[0]
+            if k in ("timeout", "eagain", "error", "eof"):
+                self.net.iolog.append({"s": self.name, "op": "recv", "asked": n, "kind": k, "k": 0})
+            if k == "timeout":
+                raise socket.timeout("timed out")
+            if k == "eagain":
+                raise socket.error(errno.EAGAIN, "Resource temporarily unavailable")
+            if k == "error":
+                raise socket.error(act[1], "injected")
+            if k == "eof":
+                return b""
+            cnt = act[1]
+            self.net.iolog.append({"s": self.name, "op": "recv", "asked": n, "kind": "ok", "k": cnt})
+            if cnt > len(self.buf) or cnt > n or cnt < 1:
+                raise RuntimeError("harness: directed recv of %d bytes impossible (asked %d, available %d)" % (
+                    cnt, n, len(self.buf)))
+            data = bytes(self.buf[:cnt])
+            del self.buf[:cnt]
+            return data
         act = self._action("recv", n)
         if act:
             k = act[0]
+            if k in ("timeout", "eagain", "error", "eof"):
+                self.net.iolog.append({"s": self.name, "op": "recv", "asked": n, "kind": k, "k": 0})
             if k == "timeout":
                 raise socket.timeout("timed out")
             if k == "eagain":
@@ -740,28 +775,45 @@ class FakeSocket(object):
         if self.closed:
             raise socket.error(errno.EBADF, "Bad file descriptor")
         if not self.buf:
+            self.net.iolog.append({"s": self.name, "op": "recv", "asked": n, "kind": "eof", "k": 0})
             return b""
         k = n
         if act and act[0] == "data":
             k = max(1, min(n, act[1]))
         data = bytes(self.buf[:k])
         del self.buf[:k]
+        self.net.iolog.append({"s": self.name, "op": "recv", "asked": n, "kind": "ok", "k": len(data)})
         return data
 
     def send(self, data):
         if self.closed:
             raise socket.error(errno.EBADF, "Bad file descriptor")
+        if self.net.directed:
+            act = self._directed("send", len(data))
+            if act[0] == "error":
+                self.net.iolog.append({"s": self.name, "op": "send", "asked": len(data), "kind": "error", "k": 0})
+                raise socket.error(act[1], "injected")
+            cnt = act[1]
+            self.net.iolog.append({"s": self.name, "op": "send", "asked": len(data), "kind": "ok", "k": cnt})
+            if cnt < 1 or cnt > len(data):
+                raise RuntimeError("harness: directed send of %d bytes impossible (offered %d)" % (cnt, len(data)))
+            self.peer.buf += data[:cnt]
+            self.sent += data[:cnt]
+            return cnt
         self.net.sched.yield_op("send", self, info=len(data))
         act = self._action("send", len(data))
         if act and act[0] == "error":
+            self.net.iolog.append({"s": self.name, "op": "send", "asked": len(data), "kind": "error", "k": 0})
             raise socket.error(act[1], "injected")
         if self.shut_wr or self.peer.closed:
+            self.net.iolog.append({"s": self.name, "op": "send", "asked": len(data), "kind": "error", "k": 0})
             raise socket.error(errno.EPIPE, "Broken pipe")
         k = len(data)
         if act and act[0] == "accept":
             k = max(1, min(k, act[1]))
         self.peer.buf += data[:k]
         self.sent += data[:k]
+        self.net.iolog.append({"s": self.name, "op": "send", "asked": len(data), "kind": "ok", "k": k})
         return k
 
     def sendall(self, data):
